@@ -122,8 +122,8 @@ Record Inv (s : st) : Prop := {
 }.
 
 Ltac simp :=
-  cbn [opted k_op k_ch k_rev k_prev k_rm vs q_opt q_prune q_und fin mat p_opt p_prune p_und ep_end cur unb holds
-       with_opted with_keys with_rev with_prev with_rm with_vs with_qopt with_qprune with_und with_unb
+  cbn [opted k_op k_ch k_rev k_prev k_rm vs q_opt q_prune q_und fin mat p_opt p_prune p_und ep_end cur unb holds jailed info
+       with_opted with_keys with_rev with_prev with_rm with_vs with_qopt with_qprune with_und with_unb with_jail with_cur
        register_und completion_epoch] in *.
 
 Lemma fwd_inj s o1 o2 k : Core s -> k_op s o1 = Some k -> k_op s o2 = Some k -> o1 = o2.
@@ -147,7 +147,11 @@ Lemma inv_same s s' :
   k_rm s' = k_rm s -> vs s' = vs s -> q_opt s' = q_opt s -> q_prune s' = q_prune s -> q_und s' = q_und s ->
   fin s' = fin s -> mat s' = mat s -> p_opt s' = p_opt s -> p_prune s' = p_prune s -> p_und s' = p_und s ->
   ep_end s' = ep_end s -> cur s' = cur s -> unb s' = unb s -> holds s' = holds s -> Inv s -> Inv s'.
-Proof. destruct s, s'; simpl; intros; subst; assumption. Qed.
+Proof.
+  destruct s, s'; simpl; intros; subst.
+  match goal with H : Inv _ |- _ => destruct H as [C V P E R W F] end.
+  destruct C; constructor; [constructor|..]; simpl in *; assumption.
+Qed.
 
 (* write with a (possibly) updated previous-key map pv *)
 Lemma writep_inv s o k pv : Inv s -> k_rm s o = false -> k_rev s k = None ->
@@ -209,24 +213,16 @@ Lemma hook_replaced_inv t pk :
   Inv t -> (forall o, k_op t o <> Some pk) -> k_rev t pk <> None ->
   ~ In pk (map snd (q_prune t) ++ p_prune t) -> Inv (hook_replaced t pk).
 Proof.
-  intros [C V P E R W F] Hno Hrev Hnq. unfold hook_replaced. destruct (vs t pk) eqn:Hvs.
-  - constructor; [constructor|..]; simp; try (destruct C; assumption).
-    + intros c Hc. rewrite map_snd_qappend, <- app_assoc in Hc. apply in_app_iff in Hc. destruct Hc as [Hc|Hc].
-      * apply (i_prune t C). apply in_app_iff. left. assumption.
-      * simpl in Hc. destruct Hc as [Hc|Hc]; [subst; split; assumption|].
-        apply (i_prune t C). apply in_app_iff. right. assumption.
-    + rewrite map_snd_qappend, <- app_assoc. simpl.
-      apply (proj2 (NoDup_Add (Add_app pk _ _))). split; [apply (i_nodup t C) | assumption].
-    + intros p Hp. apply In_qappend in Hp. destruct Hp as [Hp|Hp]; [apply (i_str_prune t C); assumption|].
-      subst. simpl. unfold completion_epoch. pose proof (i_unb t C). lia.
-  - assert (Hne : forall c, In c (map snd (q_prune t) ++ p_prune t) -> c <> pk) by (intros c Hc Ec; subst; tauto).
-    constructor; [constructor|..]; simp; try (destruct C; assumption).
-    + intros o k H. unfold mdel. zeq; [exfalso; apply (Hno o); assumption | apply (i_fwd t C); assumption].
-    + intros c Hc. destruct (i_prune t C c Hc) as [H1 H2]. split; [|assumption].
-      unfold mdel. zeq; [exfalso; apply (Hne _ Hc); reflexivity | assumption].
-    + intros c Hc. unfold mdel. zeq; [congruence | apply V; assumption].
-    + intros o pk' H1 H2. unfold mdel. destruct (Z.eqb_spec pk' pk); [subst; congruence | apply R; assumption].
-    + intros c o Hv. unfold mdel. destruct (Z.eqb_spec c pk); [discriminate | apply W; assumption].
+  intros [C V P E R W F] Hno Hrev Hnq. unfold hook_replaced.
+  constructor; [constructor|..]; simp; try (destruct C; assumption).
+  - intros c Hc. rewrite map_snd_qappend, <- app_assoc in Hc. apply in_app_iff in Hc. destruct Hc as [Hc|Hc].
+    + apply (i_prune t C). apply in_app_iff. left. assumption.
+    + simpl in Hc. destruct Hc as [Hc|Hc]; [subst; split; assumption|].
+      apply (i_prune t C). apply in_app_iff. right. assumption.
+  - rewrite map_snd_qappend, <- app_assoc. simpl.
+    apply (proj2 (NoDup_Add (Add_app pk _ _))). split; [apply (i_nodup t C) | assumption].
+  - intros p Hp. apply In_qappend in Hp. destruct Hp as [Hp|Hp]; [apply (i_str_prune t C); assumption|].
+    subst. simpl. unfold completion_epoch. pose proof (i_unb t C). lia.
 Qed.
 
 Lemma set_key_inv s o k : Inv s -> Inv (fst (set_key s o k)).
@@ -267,21 +263,16 @@ Proof.
 Qed.
 
 (* ---------- opt_out ---------- *)
-Lemma validating_false_vs s o k : validating s o = false -> k_op s o = Some k -> vs s k = false.
-Proof. unfold validating. intros H Hk. rewrite Hk in H. apply orb_false_iff in H. tauto. Qed.
-
 Lemma opt_out_inv s o : Inv s -> Inv (fst (opt_out s o)).
 Proof.
   intro I. pose proof (i_core s I) as C. unfold opt_out.
-  destruct (opted s o) eqn:Hopt; simpl; [|assumption].
-  destruct (k_op s o) as [k|] eqn:Hop; [|assumption].
+  destruct (active s o) eqn:Hact; simpl; [|assumption].
+  assert (Hopt : opted s o = true) by (unfold active in Hact; apply andb_true_iff in Hact; tauto).
   assert (Hrm : k_rm s o = false).
   { destruct (k_rm s o) eqn:H; [|reflexivity]. destruct (i_rm s C o H) as [H1 _]. congruence. }
-  set (s1 := with_rm (with_opted s (bset (opted s) o false)) (bset (k_rm s) o true)).
-  assert (Hv : validating s1 o = validating s o) by reflexivity. rewrite Hv.
-  destruct (validating s o) eqn:Hval.
+  destruct (k_op s o) as [k|] eqn:Hop; simpl.
   - (* scheduled *)
-    simpl. destruct I as [_ V P E R W F]. unfold s1. constructor; [constructor|..]; simp; try (destruct C; assumption).
+    destruct I as [_ V P E R W F]. constructor; [constructor|..]; simp; try (destruct C; assumption).
     + intros o' H. unfold bset in *. unfold mset. zeq.
       * split; [reflexivity|]. split; [congruence|]. right. eexists. reflexivity.
       * destruct (i_rm s C o' H) as (H1 & H2 & H3). tauto.
@@ -296,28 +287,9 @@ Proof.
     + intros o' Ho'. destruct (P o' Ho') as [H1 H2]. unfold bset. split.
       * zeq; [reflexivity | assumption].
       * intros f Hf. apply In_qappend in Hf. destruct Hf as [Hf|Hf]; [apply (H2 f Hf)|]. inversion Hf. subst. congruence.
-  - (* completed immediately *)
-    assert (Hc : complete_removal s1 o = Some (with_rm (with_rev (with_keys s1 (mdel (k_op s1) o) (mdel (k_ch s1) o))
-                                                     (mdel (k_rev s1) k)) (bset (k_rm s1) o false))).
-    { unfold complete_removal. assert (Hm : k_rm s1 o = true) by (unfold s1; simp; unfold bset; rewrite Z.eqb_refl; reflexivity).
-      rewrite Hm. cbn [negb]. change (k_op s1 o) with (k_op s o). rewrite Hop. reflexivity. }
-    rewrite Hc. clear Hc Hv. subst s1. cbn [fst].
-    pose proof (validating_false_vs s o k Hval Hop) as Hvs.
+  - (* no key: nothing to remove *)
     destruct I as [_ V P E R W F]. constructor; [constructor|..]; simp; try (destruct C; assumption).
-    + intro o'. unfold mdel. zeq; [reflexivity | apply (i_agree s C)].
-    + intros o' k'. apply fwd_del; assumption.
-    + intros o'. unfold bset, mdel. zeq; [discriminate|]. intro H. destruct (i_rm s C o' H) as (H1 & H2 & H3). tauto.
-    + intros f o' H. destruct (i_qopt s C f o' H) as [H1 H2]. unfold bset. zeq; [congruence | tauto].
-    + intros c Hc. destruct (i_prune s C c Hc) as [H1 H2]. unfold mdel. split.
-      * zeq; [exfalso; apply (H2 o); assumption | assumption].
-      * intro o'. zeq; [discriminate | apply H2].
-    + intros c Hc. unfold mdel. zeq; [congruence | apply V; assumption].
-    + intros o' Ho'. destruct (P o' Ho') as [H1 H2]. unfold bset. split; [|assumption]. zeq; [congruence | assumption].
-    + intros o' pk H1 H2. unfold mdel. destruct (Z.eqb_spec pk k); [subst; congruence | apply R; assumption].
-    + intros c o' Hv. unfold mdel. destruct (Z.eqb_spec c k) as [Ec|Ec]; [discriminate|]. intro Hr.
-      destruct (W c o' Hv Hr) as [H1|H1]; [|right; assumption].
-      destruct (Z.eqb_spec o' o); [subst; congruence | left; assumption].
-    + intros o' pk k' H1. unfold mdel. destruct (Z.eqb_spec o' o); [discriminate | apply (F o' pk k' H1)].
+    intros o' H. destruct (i_rm s C o' H) as (H1 & H2 & H3). unfold bset. zeq; [tauto | tauto].
 Qed.
 
 (* ---------- undelegate ---------- *)
@@ -393,7 +365,8 @@ Qed.
 Definition same_dog (s s' : st) : Prop :=
   q_opt s' = q_opt s /\ q_prune s' = q_prune s /\ q_und s' = q_und s /\ fin s' = fin s /\ mat s' = mat s /\
   p_opt s' = p_opt s /\ p_prune s' = p_prune s /\ p_und s' = p_und s /\ ep_end s' = ep_end s /\ cur s' = cur s /\
-  unb s' = unb s /\ holds s' = holds s /\ opted s' = opted s /\ vs s' = vs s /\ k_prev s' = k_prev s.
+  unb s' = unb s /\ holds s' = holds s /\ opted s' = opted s /\ vs s' = vs s /\ k_prev s' = k_prev s /\
+  jailed s' = jailed s /\ info s' = info s.
 
 Lemma same_dog_refl s : same_dog s s.
 Proof. unfold same_dog. tauto. Qed.
@@ -452,14 +425,14 @@ Proof.
     - rewrite (i_holds s C r). lia.
     - intro x. rewrite (i_holds s C x). pose proof (zcount_nonneg x (map snd (q_und s))). lia. }
   set (s1 := mkSt (opted s) (k_op s) (k_ch s) (k_rev s) mempty (k_rm s) (vs s) (q_opt s) (q_prune s) (q_und s)
-                  (fin s) m1 (p_opt s) (p_prune s) [] true (cur s) (unb s) h1).
+                  (fin s) m1 (p_opt s) (p_prune s) [] true (cur s) (unb s) h1 (jailed s) (info s)).
   assert (C1 : Core s1).
   { unfold s1. constructor; simp; try (destruct C; assumption). intro r. rewrite Hh1, zcount_nil. lia. }
   destruct (complete_all_core (p_opt s1) s1 C1) as (s2 & E2 & C2 & D2 & R2 & M2).
   { intros o Ho f. unfold s1 in *. simp. apply (proj2 (P o Ho)). }
   rewrite E2. cbv zeta. cbn [fst].
-  destruct D2 as (Dqo & Dqp & Dqu & Dfin & Dmat & Dpo & Dpp & Dpu & Dee & Dcur & Dunb & Dh & Dop & Dvs & Dprev).
-  unfold s1 in Dqo, Dqp, Dqu, Dfin, Dmat, Dpo, Dpp, Dpu, Dee, Dcur, Dunb, Dh, Dop, Dvs, Dprev. simp.
+  destruct D2 as (Dqo & Dqp & Dqu & Dfin & Dmat & Dpo & Dpp & Dpu & Dee & Dcur & Dunb & Dh & Dop & Dvs & Dprev & Djl & Dinf).
+  unfold s1 in Dqo, Dqp, Dqu, Dfin, Dmat, Dpo, Dpp, Dpu, Dee, Dcur, Dunb, Dh, Dop, Dvs, Dprev, Djl, Dinf. simp.
   split; [|reflexivity].
   assert (Hrev3 : forall c, fold_left mdel (p_prune s2) (k_rev s2) c = if zmem c (p_prune s) then None else k_rev s2 c).
   { intro c. rewrite fold_mdel_spec, Dpp. reflexivity. }
@@ -493,6 +466,13 @@ Proof.
   - intros o pk k H. rewrite Dprev in H. discriminate.
 Qed.
 
+(* ---------- jailing only touches the jailed flag ---------- *)
+Lemma set_jailed_inv s c v : Inv s -> Inv (set_jailed s c v).
+Proof.
+  intro I. unfold set_jailed. destruct (k_rev s c) as [o|]; [|assumption]. destruct (info s o); [|assumption].
+  eapply inv_same; [..|exact I]; reflexivity.
+Qed.
+
 (* ---------- every operation ---------- *)
 Lemma step_tx_inv s a : Inv s -> is_tx a = true -> Inv (fst (step s a)).
 Proof.
@@ -503,12 +483,22 @@ Proof.
     destruct (set_key s1 o k) as [s2 r2] eqn:E2. pose proof (set_key_inv s1 o k I1) as I2. rewrite E2 in I2.
     destruct r2; assumption.
   - apply opt_in_inv. assumption.
-  - destruct (negb (opted s o)); [assumption | apply set_key_inv; assumption].
+  - destruct (negb (active s o)); [assumption | apply set_key_inv; assumption].
   - apply opt_out_inv. assumption.
   - apply undelegate_inv. assumption.
   - destruct (Z.ltb_spec 0 n); simpl; [|assumption].
     destruct I as [C V P E R W F]. constructor; [destruct C; constructor|..]; simp; try assumption. lia.
   - apply set_key_inv. assumption.
+  - (* Jail *) apply set_jailed_inv. assumption.
+  - (* Unjail *) apply set_jailed_inv. assumption.
+  - assumption.
+  - (* SetClock *)
+    unfold nothing_scheduled.
+    destruct (q_opt s) eqn:Q1; [|assumption]. destruct (q_prune s) eqn:Q2; [|assumption].
+    destruct (q_und s) eqn:Q3; [|assumption]. destruct (p_opt s) eqn:Q4; [|assumption].
+    destruct (p_prune s) eqn:Q5; [|assumption]. destruct (p_und s) eqn:Q6; [|assumption]. simpl.
+    destruct I as [C V P E R W F]. constructor; [destruct C; constructor|..]; simp; try assumption;
+      try (rewrite Q1 in *); try (rewrite Q2 in *); try (rewrite Q3 in *); try assumption; try (intros p Hp; contradiction).
 Qed.
 
 Lemma hstep_inv s h : Inv s -> Inv (hstep s h).
@@ -555,14 +545,14 @@ Proof.
   { intro r. pose proof (release_holds (p_und s) (holds s) (mat s) r) as H. rewrite Hrel in H. simpl in H. apply H.
     intro x. rewrite (i_holds s C x). pose proof (zcount_nonneg x (map snd (q_und s))). lia. }
   set (s1 := mkSt (opted s) (k_op s) (k_ch s) (k_rev s) mempty (k_rm s) (vs s) (q_opt s) (q_prune s) (q_und s)
-                  (fin s) m1 (p_opt s) (p_prune s) [] true (cur s) (unb s) h1).
+                  (fin s) m1 (p_opt s) (p_prune s) [] true (cur s) (unb s) h1 (jailed s) (info s)).
   assert (C1 : Core s1).
   { unfold s1. constructor; simp; try (destruct C; assumption). intro r. rewrite Hh1, zcount_nil, (i_holds s C r). lia. }
   destruct (complete_all_core (p_opt s1) s1 C1) as (s2 & E2 & C2 & D2 & R2 & M2).
   { intros o Ho f. unfold s1 in *. simp. apply (proj2 (P o Ho)). }
   rewrite E2. cbv zeta. cbn [fst snd].
-  destruct D2 as (Dqo & Dqp & Dqu & Dfin & Dmat & Dpo & Dpp & Dpu & Dee & Dcur & Dunb & Dh & Dop & Dvs & Dprev).
-  unfold s1 in Dqo, Dqp, Dqu, Dfin, Dmat, Dpo, Dpp, Dpu, Dee, Dcur, Dunb, Dh, Dop, Dvs, Dprev. simp.
+  destruct D2 as (Dqo & Dqp & Dqu & Dfin & Dmat & Dpo & Dpp & Dpu & Dee & Dcur & Dunb & Dh & Dop & Dvs & Dprev & Djl & Dinf).
+  unfold s1 in Dqo, Dqp, Dqu, Dfin, Dmat, Dpo, Dpp, Dpu, Dee, Dcur, Dunb, Dh, Dop, Dvs, Dprev, Djl, Dinf. simp.
   split; [reflexivity|]. do 7 (split; [assumption|]). split; [discriminate|]. intros _.
   do 3 (split; [reflexivity|]).
   split; [intro r; rewrite Dh; apply Hh1|].
@@ -570,6 +560,66 @@ Proof.
   split; [intros c Hc; rewrite fold_mdel_spec, Dpp; apply zmem_In in Hc; rewrite Hc; reflexivity|].
   - intros c o. rewrite fold_mdel_spec. destruct (zmem c (p_prune s2)); [discriminate|]. intro H.
     apply (complete_all_rev_mono _ _ _ _ _ E2 H).
+Qed.
+
+Lemma complete_all_op_mono l : forall t s2 o c,
+  complete_all t l = Some s2 -> k_op s2 o = Some c -> k_op t o = Some c.
+Proof.
+  induction l as [|a l IH]; intros t s2 o c E2 H; simpl in E2.
+  - inversion E2. subst. assumption.
+  - destruct (complete_removal t a) as [t1|] eqn:Ec; [|discriminate].
+    apply (IH _ _ _ _ E2) in H. clear - Ec H. unfold complete_removal in Ec.
+    destruct (k_rm t a); simpl in Ec; [|inversion Ec; subst; assumption].
+    destruct (k_op t a) as [z|]; [|discriminate]. inversion Ec. subst. simp. unfold mdel in H.
+    destruct (o =? a); [discriminate | assumption].
+Qed.
+
+Lemma end_block_op_mono s sel o c : k_op (fst (end_block s sel)) o = Some c -> k_op s o = Some c.
+Proof.
+  unfold end_block. destruct (negb (ep_end s)); [simpl; tauto|].
+  destruct (fold_left release_one (p_und s) (holds s, mat s)) as [h1 m1].
+  match goal with |- context [complete_all ?t ?l] => destruct (complete_all t l) as [s2|] eqn:E2 end; [|simpl; tauto].
+  cbv zeta. cbn [fst]. simp. intro H. apply (complete_all_op_mono _ _ _ _ _ E2) in H. exact H.
+Qed.
+
+(* setting a key for one operator leaves the forward index of every other operator alone *)
+Lemma set_key_other t o0 k o c : o0 <> o -> k_op t o = Some c -> k_op (fst (set_key t o0 k)) o = Some c.
+Proof.
+  intros Ne H. unfold set_key. destruct (k_rm t o0); [assumption|]. destruct (is_some (k_rev t k)); [assumption|].
+  destruct (k_op t o0) as [pk|]; [destruct (pk =? k); [assumption|]; destruct (is_some (k_prev t o0))|];
+    simpl; unfold hook_replaced; simp; unfold mset; (destruct (Z.eqb_spec o o0); [congruence | assumption]).
+Qed.
+
+(* the validator set stored by the EndBlock that closes an epoch: current keys of selected ACTIVE operators only *)
+Lemma end_block_vs s sel : Inv s -> ep_end s = true ->
+  let s' := fst (end_block s sel) in
+  forall c, vs s' c = true ->
+    exists o, In o sel /\ opted s' o = true /\ jailed s' o = false /\ k_op s' o = Some c /\ k_rev s' c = Some o /\
+              jailed s' = jailed s.
+Proof.
+  intros I Hee. pose proof (end_block_inv s sel I) as [I' _]. revert I'.
+  unfold end_block. rewrite Hee. cbn [negb].
+  destruct I as [C V P E R W F].
+  destruct (fold_left release_one (p_und s) (holds s, mat s)) as [h1 m1] eqn:Hrel.
+  assert (Hh1 : forall r, h1 r = holds s r - zcount r (p_und s)).
+  { intro r. pose proof (release_holds (p_und s) (holds s) (mat s) r) as H. rewrite Hrel in H. simpl in H. apply H.
+    intro x. rewrite (i_holds s C x). pose proof (zcount_nonneg x (map snd (q_und s))). lia. }
+  set (s1 := mkSt (opted s) (k_op s) (k_ch s) (k_rev s) mempty (k_rm s) (vs s) (q_opt s) (q_prune s) (q_und s)
+                  (fin s) m1 (p_opt s) (p_prune s) [] true (cur s) (unb s) h1 (jailed s) (info s)).
+  assert (C1 : Core s1).
+  { unfold s1. constructor; simp; try (destruct C; assumption). intro r. rewrite Hh1, zcount_nil, (i_holds s C r). lia. }
+  destruct (complete_all_core (p_opt s1) s1 C1) as (s2 & E2 & C2 & D2 & R2 & M2).
+  { intros o Ho f. unfold s1 in *. simp. apply (proj2 (P o Ho)). }
+  rewrite E2. cbv zeta. cbn [fst].
+  destruct D2 as (Dqo & Dqp & Dqu & Dfin & Dmat & Dpo & Dpp & Dpu & Dee & Dcur & Dunb & Dh & Dop & Dvs & Dprev & Djl & Dinf).
+  unfold s1 in Djl. simp.
+  intros I' c Hc. simp. unfold new_valset in Hc. apply existsb_exists in Hc. destruct Hc as (o & Hin & Ho).
+  apply andb_true_iff in Ho. destruct Ho as [Ha Ho]. unfold active in Ha. simp. apply andb_true_iff in Ha.
+  destruct Ha as [Ha1 Ha2]. apply negb_true_iff in Ha2.
+  unfold oz_eqb, option_eqb in Ho. destruct (k_ch s2 o) as [k|] eqn:Hk; [|discriminate]. apply Z.eqb_eq in Ho. subst k.
+  exists o. rewrite <- (i_agree s2 C2) in Hk.
+  split; [assumption|]. split; [assumption|]. split; [assumption|]. split; [assumption|]. split; [|assumption].
+  pose proof (i_fwd _ (i_core _ I') o c) as Hf. simp. apply Hf. assumption.
 Qed.
 
 (* ---------- what a transaction cannot do ---------- *)
@@ -581,35 +631,14 @@ Ltac split_ifs :=
 
 Lemma tx_frame s a : is_tx a = true ->
   let s' := fst (step s a) in
-  cur s' = cur s /\ ep_end s' = ep_end s /\ p_opt s' = p_opt s /\ p_prune s' = p_prune s /\ p_und s' = p_und s /\
+  ep_end s' = ep_end s /\ p_opt s' = p_opt s /\ p_prune s' = p_prune s /\ p_und s' = p_und s /\
   vs s' = vs s /\
   (forall p, In p (q_opt s) -> In p (q_opt s')) /\ (forall p, In p (q_prune s) -> In p (q_prune s')) /\
   (forall p, In p (q_und s) -> In p (q_und s')).
 Proof.
   intro Ht. destruct a; simpl in Ht; try discriminate; simpl.
-  4:{ (* OptOut *)
-    unfold opt_out. destruct (negb (opted s o)); [simpl; tauto|]. destruct (k_op s o) as [k|] eqn:Hop; [|simpl; tauto].
-    destruct (validating _ o).
-    - simp. repeat split; auto; intros; apply In_qappend; auto.
-    - destruct (complete_removal _ o) as [s2|] eqn:Ec; [|simpl; tauto]. unfold complete_removal in Ec. simp.
-      destruct (negb (bset (k_rm s) o true o)); [inversion Ec; subst; simp; tauto|].
-      rewrite Hop in Ec. inversion Ec; subst; simp; tauto. }
-  all: unfold opt_in, set_key, undelegate, hook_replaced; split_ifs; simp;
-    repeat split; auto; intros; apply In_qappend; auto.
-Qed.
-
-Lemma cur_mono_hstep s h : Inv s -> cur s <= cur (hstep s h).
-Proof.
-  intro I. destruct h as [a|sel tick]; simpl.
-  - destruct (is_tx a) eqn:Ht; [|lia]. destruct (tx_frame s a Ht) as [H _]. lia.
-  - pose proof (end_block_effect s sel I) as H. cbv zeta in H. destruct H as (_ & _ & _ & _ & Hc & _).
-    destruct tick; simpl; lia.
-Qed.
-
-Lemma cur_mono_hrun l : forall s, Inv s -> cur s <= cur (hrun s l).
-Proof.
-  induction l as [|h l IH]; intros s I; simpl; [lia|].
-  pose proof (cur_mono_hstep s h I). pose proof (IH (hstep s h) (hstep_inv s h I)). lia.
+  all: unfold opt_in, set_key, opt_out, undelegate, hook_replaced, set_jailed; split_ifs; simp;
+    repeat split; auto; intros; repeat (apply In_qappend; auto).
 Qed.
 
 (* an entry stays in its queue until the epoch of its key closes *)
@@ -620,7 +649,7 @@ Lemma hstep_keeps s h : Inv s ->
   (forall p, In p (q_und s) -> In p (q_und s') \/ fst p < cur s').
 Proof.
   intro I. destruct h as [a|sel tick]; simpl.
-  - destruct (is_tx a) eqn:Ht; [|tauto]. destruct (tx_frame s a Ht) as (_ & _ & _ & _ & _ & _ & H1 & H2 & H3).
+  - destruct (is_tx a) eqn:Ht; [|tauto]. destruct (tx_frame s a Ht) as (_ & _ & _ & _ & _ & H1 & H2 & H3).
     repeat split; intros p Hp; left; auto.
   - pose proof (end_block_effect s sel I) as H. cbv zeta in H.
     destruct H as (_ & Hqo & Hqp & Hqu & Hc & _).
@@ -630,26 +659,37 @@ Proof.
     + rewrite Hqo, Hqp, Hqu. tauto.
 Qed.
 
-Lemma hrun_keeps l : forall s, Inv s ->
+(* [all_states P s l]: P holds in s and in every state the history l passes through *)
+Fixpoint all_states (P : st -> Prop) (s : st) (l : list hop) : Prop :=
+  match l with
+  | [] => P s
+  | h :: r => P s /\ all_states P (hstep s h) r
+  end.
+
+Lemma all_states_head P s l : all_states P s l -> P s.
+Proof. destruct l; simpl; tauto. Qed.
+
+Lemma hrun_keeps l : forall s f, Inv s -> all_states (fun t => cur t <= f) s l ->
   let s' := hrun s l in
-  (forall p, In p (q_opt s) -> fst p >= cur s' -> In p (q_opt s')) /\
-  (forall p, In p (q_prune s) -> fst p >= cur s' -> In p (q_prune s')) /\
-  (forall p, In p (q_und s) -> fst p >= cur s' -> In p (q_und s')).
+  (forall x, In (f, x) (q_opt s) -> In (f, x) (q_opt s')) /\
+  (forall x, In (f, x) (q_prune s) -> In (f, x) (q_prune s')) /\
+  (forall x, In (f, x) (q_und s) -> In (f, x) (q_und s')).
 Proof.
-  induction l as [|h l IH]; intros s I; simpl; [tauto|].
-  pose proof (hstep_inv s h I) as I1. destruct (IH _ I1) as (A1 & A2 & A3).
-  destruct (hstep_keeps s h I) as (B1 & B2 & B3). pose proof (cur_mono_hrun l _ I1) as Hm.
-  repeat split; intros p Hp Hge.
-  - destruct (B1 p Hp) as [H|H]; [apply A1; assumption | lia].
-  - destruct (B2 p Hp) as [H|H]; [apply A2; assumption | lia].
-  - destruct (B3 p Hp) as [H|H]; [apply A3; assumption | lia].
+  induction l as [|h l IH]; intros s f I Hall; simpl; [tauto|].
+  simpl in Hall. destruct Hall as [_ Hall]. pose proof (all_states_head _ _ _ Hall) as Hc. simpl in Hc.
+  pose proof (hstep_inv s h I) as I1. destruct (IH _ f I1 Hall) as (A1 & A2 & A3).
+  destruct (hstep_keeps s h I) as (B1 & B2 & B3).
+  repeat split; intros x Hx.
+  - destruct (B1 (f, x) Hx) as [H|H]; [apply A1; assumption | simpl in H; lia].
+  - destruct (B2 (f, x) Hx) as [H|H]; [apply A2; assumption | simpl in H; lia].
+  - destruct (B3 (f, x) Hx) as [H|H]; [apply A3; assumption | simpl in H; lia].
 Qed.
 
 (* ---------- a concrete state satisfying the invariant (non-vacuity of every theorem's premise) ---------- *)
 Definition ex_state : st :=
   mkSt (fun o => (o =? 0) || (o =? 1)) (mset (mset mempty 0 10) 1 11) (mset (mset mempty 0 10) 1 11)
        (mset (mset mempty 10 0) 11 1) mempty (fun _ => false) (fun c => (c =? 10) || (c =? 11))
-       [] [] [] mempty mempty [] [] [] false 5 2 (fun _ => 0).
+       [] [] [] mempty mempty [] [] [] false 5 2 (fun _ => 0) (fun _ => false) (fun o => (o =? 0) || (o =? 1)).
 
 Lemma ex_state_inv : Inv ex_state.
 Proof.
